@@ -79,7 +79,12 @@ def gen(rng, tier):
                 reactor = {"kind": "h2", "credit": "auto", "skip_h1_101": True}
                 truth.update(proto="h2c", version="2", expect={tags[0]: 1, tags[1]: 3})
             elif kind == "h2c_body":
-                opening = _h1_req(tags[0], extra=b"Connection: Upgrade, HTTP2-Settings\r\nUpgrade: h2c\r\nHTTP2-Settings: \r\n", body=b"has-a-body")
+                if rng.random() < 0.5:
+                    opening = _h1_req(tags[0], extra=b"Connection: Upgrade, HTTP2-Settings\r\nUpgrade: h2c\r\nHTTP2-Settings: \r\n", body=b"has-a-body")
+                else:
+                    # the body is announced by Transfer-Encoding instead of Content-Length
+                    opening = (b"POST /t%d HTTP/1.1\r\nHost: h.example\r\nConnection: Upgrade, HTTP2-Settings\r\nUpgrade: h2c\r\nHTTP2-Settings: \r\n"
+                               b"Transfer-Encoding: chunked\r\n\r\n5\r\nhas-a\r\n5\r\n-body\r\n0\r\n\r\n" % tags[0])
                 trailing = _h1_req(tags[1])
                 truth.update(proto="h1", version="1.1", expect=[tags[0], tags[1]])
             else:  # websocket
